@@ -55,7 +55,31 @@ type lsSeq struct {
 	ops     []string
 }
 
+// runLS runs one sequence; a run disturbed by a scheduling stall is repeated.
 func runLS(c *hx.Ctx, q lsSeq) {
+	for attempt := 0; ; attempt++ {
+		j := startJitter()
+		obs, counts := runLSOnce(c, q)
+		if w := j.worst(); w > maxJitter && attempt < 4 {
+			c.Count("ls.repeated-after-stall")
+			continue
+		}
+		b := func(x bool) int {
+			if x {
+				return 1
+			}
+			return 0
+		}
+		c.Emit("C11", fmt.Sprintf("ls %d %d %s", b(q.bind), b(q.inherit), strings.Join(q.ops, ",")), strings.Join(obs, ","))
+		for _, k := range counts {
+			c.Count(k)
+		}
+		return
+	}
+}
+
+func runLSOnce(c *hx.Ctx, q lsSeq) ([]string, []string) {
+	var counts []string
 	var inh net.Listener
 	addr := "127.0.0.1:0"
 	if q.inherit {
@@ -146,17 +170,14 @@ func runLS(c *hx.Ctx, q lsSeq) {
 			}
 			ret = probeListener(ln, rec, lastAddr)
 		}
+		if a, err := listenerAddr(ln); err == nil {
+			lastAddr = a // the address clients know, also after the listener closed
+		}
 		obs = append(obs, fmt.Sprintf("%d:%d:%d:%s", network.VerifListenerState(ln),
 			atomic.LoadInt32(&rec.shutdown)-sh0, atomic.LoadInt32(&rec.closed)-cl0, ret))
-		c.Count("ls.op=" + op[:1] + "." + ret)
+		counts = append(counts, "ls.op="+op[:1]+"."+ret)
 	}
-	b := func(x bool) int {
-		if x {
-			return 1
-		}
-		return 0
-	}
-	c.Emit("C11", fmt.Sprintf("ls %d %d %s", b(q.bind), b(q.inherit), strings.Join(q.ops, ",")), strings.Join(obs, ","))
+	return obs, counts
 }
 
 func okErr(err error) string {
